@@ -651,3 +651,51 @@ func finishesTx(c *Ctx, w *ssa.Function, p *ssa.Parameter, name string, depth in
 	isRet := func(in ssa.Instruction) bool { _, ok := in.(*ssa.Return); return ok }
 	return findPath(w, nil, isRet, is, nil) == nil
 }
+
+// R-LOCKPAIR: a function that takes the database lock directly (not through a transaction) gives
+// it back on every path to a return - by the matching unlock call or by a deferred one that was
+// registered before the return. An exit that keeps the lock blocks every later writer forever
+// (and, once a writer waits, every reader).
+func ruleLockPair(c *Ctx) {
+	n := 0
+	for _, f := range c.P.SrcFuncs {
+		if !c.P.inModule(f) || len(f.Blocks) == 0 {
+			continue
+		}
+		tps := txParamsOf(f)
+		k := 0
+		calls(f, func(ci ssa.CallInstruction) {
+			if _, isDefer := ci.(*ssa.Defer); isDefer {
+				return
+			}
+			if _, isGo := ci.(*ssa.Go); isGo {
+				return
+			}
+			cc := ci.Common()
+			if !isMuCall(cc, "Lock", "RLock") {
+				return
+			}
+			// operations reached through the transaction are the acquire half of Begin/Commit/Rollback (R-LOCKMAP, R-TXPAIR)
+			if len(tps) > 0 {
+				if root, _ := splitPath(cc.Args[0]); root == ssa.Value(tps[0]) {
+					return
+				}
+			}
+			n++
+			k++
+			c.touch(f)
+			want := "Unlock"
+			if cc.StaticCallee().Name() == "RLock" {
+				want = "RUnlock"
+			}
+			p := findPath(f, ci.(ssa.Instruction), func(in ssa.Instruction) bool { _, ok := in.(*ssa.Return); return ok }, func(in ssa.Instruction) bool {
+				cc2 := callOf(in)
+				return cc2 != nil && isMuCall(cc2, want)
+			}, nil)
+			c.check(p == nil, fnName(f), fmt.Sprintf("mu.%s #%d is released on every path to a return", cc.StaticCallee().Name(), k), c.P.ipos(ci), "",
+				fmt.Sprintf("a path from this mu.%s reaches a return without mu.%s (and without a deferred one): the function exits holding the database lock, every later write transaction - and Close - blocks forever, and once a writer waits so does every reader", cc.StaticCallee().Name(), want), c.witnessOf(p)...)
+		})
+	}
+	c.Sites += n
+	c.minInstances("direct acquisitions of the database lock outside transactions", n, 1)
+}
